@@ -12,22 +12,67 @@ TRUST = (
     "floats are reals without inf/nan; documents are json.loads-shaped trees. "
 )
 
+TECH = "contract-based deductive verification: VCs generated from the real source (ast -> z3 symbolic execution, code path x spec path equivalence against sidecar spec functions), discharged by z3; "
+
 CLAIMED = {
     "C01": dict(
         category="proof",
         text="Every selector/segment resolve body is proved equal, for all documents and all selector parameters, to the RFC 9535 node-level spec "
-        "(name, index incl. the documented object departure, slice for all start/stop/step, wildcard, descendant by modular recursion, bracketed lists). "
-        "The surface-syntax clause (lexer+parser produce the right selector tuple in every spelling) is a bounded stand-in, labelled bounded in evidence.",
+        "(name, index incl. the documented object departure, slice for all start/stop/step, wildcard, descendant by modular recursion, bracketed lists, filter selector skeleton). "
+        "The surface-syntax clause (lexer+parser produce the right selector tuple in every spelling) is a bounded stand-in (monitors/c01.py), labelled bounded in evidence.",
         ref="5/C01",
-        technique="contract-based deductive verification: ast->z3 VC generation over the real source, code-vs-spec-function equivalence per path; bounded enumeration for the parser",
+        technique=TECH + "bounded enumeration of query ASTs x renderings x documents for the lexer/parser",
         note=TRUST + "Dynamic dispatch inside ListSelector uses the abstract resolve contract; canonical_string is uninterpreted (its string law is bounded, C03).",
+    ),
+    "C02": dict(
+        category="proof",
+        text="compare/_eq/_lt/is_truthy are proved equal to the RFC 9535 comparison table for all operand pairs; every filter node (infix, prefix, boolean, embedded @/$ queries, "
+        "function call + the five standard functions, Filter.resolve) is proved against its RFC semantics with children abstract (structural induction). "
+        "Two recorded findings are carved out of the preconditions (deep bool/number equality; `$` inside nested filters). Operator precedence/grouping of the Pratt parser is bounded (monitors/c02.py).",
+        ref="5/C02",
+        technique=TECH + "modular call contracts (compare, is_truthy, finditer), structural induction over expression nodes; bounded expression-tree enumeration for the parser",
+        note=TRUST + "Well-typedness of the query (C07) is a precondition of the node contracts; re is opaque (uninterpreted match predicates); deep == on containers is uninterpreted with one-step unfolding.",
+    ),
+    "C03": dict(
+        category="proof",
+        text="The child(m,k,v) postcondition proved for every selector (C01 contracts) fixes path, parts, root and parent of each produced match; JSONPointer.from_match is proved to reuse the parts without re-parsing and "
+        "_getitem/_index to resolve exact-typed parts. The string-level clauses (normalized-path syntax, canonical_string escape, path re-query by identity, pointer text re-parse) are bounded (monitors/c03.py).",
+        ref="5/C03",
+        technique=TECH + "bounded re-query / re-parse of every match of the query universe",
+        note=TRUST + "canonical_string and the pointer text encoder/decoder are uninterpreted in the proofs.",
+    ),
+    "C04": dict(
+        category="proof",
+        text="_index (canonical-decimal tokens only), _getitem (complete RFC 6901 section 4 case table incl. strings/scalars, '-', out-of-range, non-canonical), resolve/exists/resolve_parent (fold rule) are proved against specs/rfc6901.py. "
+        "The parse/unescape string law is bounded (monitors/c04.py: every location of the document universe + one-token mutations).",
+        ref="5/C04",
+        technique=TECH + "regex-language membership for token classes, fold rule for reduce; bounded enumeration for the text parser",
+        note=TRUST + "'#'/'~'-prefixed tokens and leading blanks are outside the clause (as in the statement); list lengths are below 2**53.",
+    ),
+    "C05": dict(
+        category="proof",
+        text="Each operation's apply is proved equal to RFC 6902 section 4 on the container that holds the target (mutable-box heap model, resolve_parent through its proved contract), per token class; "
+        "move/copy for source and destination in one array. Two recorded findings are carved out (test uses Python ==; negative indices accepted). "
+        "The lifting to whole documents, objects in move/copy, and operation sequences are bounded (monitors/c05.py against a functional reference).",
+        ref="5/C05",
+        technique=TECH + "mutable-box heap model with write-back, modular resolve_parent contract; bounded differential check against a functional RFC 6902 reference",
+        note=TRUST + "Lifting assumption: mutating the parent container of a tree-shaped document is the whole-document update (validated bounded). Integer-looking *string* tokens are verified only in the thorough tier.",
     ),
     "C08": dict(
         category="proof",
-        text="Relational obligations: each resolve_async body is proved to produce the same yield sequence / exception as its resolve twin on the same symbolic input.",
+        text="Relational obligations: each resolve_async / evaluate_async body is proved to produce the same yield sequence / value / exception as its sync twin on the same symbolic input (8 selectors, filter nodes, embedded queries, function calls). "
+        "Entry points, compound queries, async item getters and concurrent awaits are cross-checked bounded (monitors/c08.py).",
         ref="5/C08",
-        technique="contract-based deductive verification: relational (product) equivalence of sync/async twins by ast->z3 symbolic execution",
+        technique=TECH + "relational (product) equivalence of sync/async twins; bounded differential run on one event loop",
         note=TRUST + "await e is e's synchronous contract (DESIGN 3.6); getitem_async is assumed to return what getitem returns (the statement's hypothesis). Scheduler interleavings are not explored.",
+    ),
+    "C12": dict(
+        category="proof",
+        text="Every Query operation is proved equal to its list-slicing spec on the abstract view of the remaining matches (limit/head/first, skip/drop, tail/last, take, tee, first_one/one/last_one, values/locations/items); chains follow by composition. "
+        "Consumption-order independence of take/tee (laziness) and all chains of length <= 3 are checked bounded (monitors/c12.py).",
+        ref="5/C12",
+        technique=TECH + "data-structure-against-abstract-view contracts over an itertools library model; bounded exhaustive chains",
+        note=TRUST + "itertools.islice is modelled eagerly (equal to the lazy one only under iterator ownership); the bounded part covers the lazy orders.",
     ),
 }
 
